@@ -261,6 +261,64 @@ func genXO(r *Rand, tier string, emit func(string)) {
 		}
 		e(append(append(append([]byte{}, body...), idx...), foot...))
 	}
+	// two-index streams [chunks1][index1][chunks2][index2][footer] whose second index lies about
+	// one chunk's raw size (totals, CRCs and back sizes all consistent)
+	m2 := 200
+	if thorough {
+		m2 = 4000
+	}
+	for i := 0; i < m2; i++ {
+		group := func() (body []byte, recs []idxRec, totC, totR uint64, plain []byte) {
+			for c := 1 + r.Intn(2); c > 0; c-- {
+				d := r.Bytes(1 + r.Intn(40))
+				ch, _, err := buildXflate(xwCfg{level: r.Pick([]int{-1, 1, 6}), chunk: 1 << 20, index: -1}, []xwOp{{kind: 'W', data: d}, {kind: 'F', mode: 1}})
+				if err != nil {
+					continue
+				}
+				xr, err := xflate.NewReader(bytes.NewReader(ch), nil)
+				if err != nil {
+					continue
+				}
+				chunk := ch[:xr.VerifRecords()[0].CompOffset]
+				body = append(body, chunk...)
+				recs = append(recs, idxRec{uint64(len(chunk)), uint64(len(d))})
+				totC += uint64(len(chunk))
+				totR += uint64(len(d))
+				plain = append(plain, d...)
+			}
+			return
+		}
+		b1, r1, c1, t1, _ := group()
+		b2, r2, c2, t2, _ := group()
+		if len(r1) == 0 || len(r2) == 0 {
+			continue
+		}
+		switch r.Intn(4) {
+		case 0: // a chunk of the second index declared empty
+			k := r.Intn(len(r2))
+			t2 -= r2[k].r
+			r2[k].r = 0
+		case 1: // ... or shorter than it is
+			k := r.Intn(len(r2))
+			if r2[k].r > 1 {
+				r2[k].r--
+				t2--
+			}
+		case 2: // a chunk of the first index declared empty
+			k := r.Intn(len(r1))
+			t1 -= r1[k].r
+			r1[k].r = 0
+		}
+		idx1 := metaStream(buildIndex(0, r1, uint64(len(r1)), c1, t1, false, 0), 1)
+		idx2 := metaStream(buildIndex(uint64(len(idx1)), r2, uint64(len(r2)), c2, t2, false, 0), 1)
+		var st []byte
+		st = append(st, b1...)
+		st = append(st, idx1...)
+		st = append(st, b2...)
+		st = append(st, idx2...)
+		st = append(st, buildFooter(uint64(len(idx2)))...)
+		e(st)
+	}
 	// crafted chunks with an index that agrees with what the per-chunk inflater yields
 	q := 1500
 	if thorough {
@@ -340,7 +398,7 @@ func chunkRaw(chunk []byte) (int, bool) {
 func init() {
 	register(&Family{
 		Name: "xo",
-		Rule: "xflate.NewReader + ReadAll on arbitrary bytes: all strings <= 1 byte; index/footer-only streams declaring huge record counts; streams from the real Writer (random configuration and schedule) untouched and with bit flips (anywhere / in the tail), truncation, leading or trailing bytes, duplication, byte swaps, an early final bit, a footer or index block with its DEFLATE final bit toggled, a replaced footer; genuine chunks followed by a re-encoded index and footer with a tampered record count, totals, record sizes (incl. <= 4), CRC, back size, final mode, record order, flag byte, and chunks with an embedded final bit; chunks crafted from DEFLATE fragments the Writer never emits (final stored / dynamic / fixed blocks running 0..9 bytes into the appended end block, over-long stored blocks, junk ending in the sync marker) under an index that agrees with the per-chunk inflater. Accepted streams of <= 700 bytes are also read by the Open+Reader models over the RFC 1951 specification (kind xa). Oracle: accepted + fully read => compress/flate reads the same bytes identically. Non-trivial = accepted or longer than 20 bytes; distinct by stream",
+		Rule: "xflate.NewReader + ReadAll on arbitrary bytes: all strings <= 1 byte; index/footer-only streams declaring huge record counts; streams from the real Writer (random configuration and schedule) untouched and with bit flips (anywhere / in the tail), truncation, leading or trailing bytes, duplication, byte swaps, an early final bit, a footer or index block with its DEFLATE final bit toggled, a replaced footer; genuine chunks followed by a re-encoded index and footer with a tampered record count, totals, record sizes (incl. <= 4), CRC, back size, final mode, record order, flag byte, and chunks with an embedded final bit; two-index streams whose second (or first) index misdeclares a chunk's raw size with consistent totals; chunks crafted from DEFLATE fragments the Writer never emits (final stored / dynamic / fixed blocks running 0..9 bytes into the appended end block, over-long stored blocks, junk ending in the sync marker) under an index that agrees with the per-chunk inflater. Accepted streams of <= 700 bytes are also read by the Open+Reader models over the RFC 1951 specification (kind xa). Oracle: accepted + fully read => compress/flate reads the same bytes identically. Non-trivial = accepted or longer than 20 bytes; distinct by stream",
 		Gen:  genXO,
 		Exec: execXO,
 	})
